@@ -222,6 +222,8 @@ def run_one(prop, cfg, tier, regress_path, known, outdir):
     scale = prop.get("scale", {}).get(tier, 100)
     cmd = [exe, "--mode", prop.get("mode", "all"), "--config", cfg.name, "--seed", str(SEED), "--tier", "0" if tier == "quick" else "1",
            "--scale", str(scale), "--out", out]
+    if os.environ.get("VERIF_MAXFAIL"):
+        cmd += ["--max-failures", os.environ["VERIF_MAXFAIL"]]
     if regress_path:
         cmd += ["--regress", regress_path]
     if prop.get("ub_is_violation"):
